@@ -205,7 +205,8 @@ def _cases(draw, tier="quick"):
         b = draw(st.integers(a, 4))
         stop = draw(st.sampled_from([None, None, "english", "list"]))
         if stop == "list":
-            stop = draw(st.lists(st.sampled_from(["the", "cat", "dog", "is", "bird", "document"]), min_size=1, max_size=3, unique=True))
+            # entries holding a blank are legal and match no token (scikit-learn compares stop words with single tokens)
+            stop = draw(st.lists(st.sampled_from(["the", "cat", "dog", "is", "bird", "document", "the cat", "is a", "cat dog", "of the"]), min_size=1, max_size=3, unique=True))
         mind = draw(st.sampled_from([1, 1, 1, 1, 1, 1, 2, 0.3]))
         maxd = draw(st.sampled_from([1.0, 1.0, 1.0, 1.0, 1.0, 0.8, 3, 6]))
         return dict(kind=draw(st.sampled_from(["count", "tfidf"])), ngram_range=[a, b], stop_words=stop, lowercase=draw(st.booleans()),
